@@ -349,7 +349,7 @@ func TestVFC12RateLimitHTTP(t *testing.T) {
 			vfC12.Class("limiter:nontrivial_history")
 		}
 		_ = clearedBySuccess
-		if vfC12.WantSample("limiter_http") && reachedLimit {
+		if vfC12.WantSample("limiter_http") {
 			vfC12.Sample("limiter_http", map[string]any{"max_attempts": max, "block": blockDur.String(), "history": trace})
 		}
 	})
@@ -443,6 +443,9 @@ func TestVFC12RateLimitModel(t *testing.T) {
 			},
 			"": func(t *rapid.T) {},
 		})
+		if vfC12.WantSample("limiter_model") {
+			vfC12.Sample("limiter_model", map[string]any{"max_attempts": max, "block": blockDur.String(), "history": trace})
+		}
 		if reached {
 			vfC12.Class("model:limit_reached")
 			if crossed {
@@ -611,7 +614,7 @@ func TestVFC12Sessions(t *testing.T) {
 			vfC12.Nontrivial(fmt.Sprintf("sess|%d|%s", ttl, strings.Join(trace, ";")))
 			vfC12.Class("session:nontrivial_history")
 		}
-		if vfC12.WantSample("session") && crossedExpiry && restarted {
+		if vfC12.WantSample("session") {
 			vfC12.Sample("session", map[string]any{"ttl_s": ttl, "history": trace})
 		}
 	})
